@@ -30,6 +30,8 @@ import Mdsort.Spec.Dest
 import Mdsort.Model.Dest
 import Mdsort.Model.L0.Mime
 import Mdsort.Model.L0.Util
+import Mdsort.Model.L0.Buffer
+import Mdsort.Model.Start
 
 /-!
 Line-protocol driver: one request per line `<side> <op> <hexarg>*`, one response
@@ -737,6 +739,77 @@ def handleL0 (fn : String) (args : List Bytes) : L0.M String :=
     | .inr true => pure "INVALID"
   | _, _ => pure "BADOP"
 
+/-! ### libks buffer: `lbuf <start> (<op> <piece>)* [<final>]` (harness/unit/h_buffer.c) -/
+
+/-- The operations of an `lbuf` request on the index-level buffer model; `rcs` in reverse order. -/
+def lbufOps (bf : L0.LBuf) (rcs : List Nat) : List Bytes → L0.M (L0.LBuf × List Nat × Option Bytes)
+  | op :: piece :: rest =>
+    match op with
+    | [115] => do let (rc, bf') ← bf.puts piece; lbufOps bf' (rc :: rcs) rest                       -- s
+    | [99] => do let (rc, bf') ← bf.putc (piece.headD 0); lbufOps bf' (rc :: rcs) rest             -- c
+    | [102] => do let (rc, bf') ← bf.vprintf (cstr piece); lbufOps bf' (rc :: rcs) rest            -- f: "%s" stops at a NUL
+    | [114] => lbufOps bf.reset (0 :: rcs) rest                                                   -- r
+    | [112] => lbufOps (bf.pop (asNat piece)).2 (0 :: rcs) rest                                   -- p
+    | _ => pure (bf, rcs, none)
+  | [fin] => pure (bf, rcs, some fin)
+  | [] => pure (bf, rcs, none)
+
+/-- The C string at `&b[i]`, read byte by byte through the checked accessor (linear in its length). -/
+def l0CStr (b : L0.Buf) (i : Nat) (acc : Bytes) : L0.M Bytes :=
+  match h : b.get? i with
+  | .error e => .error e
+  | .ok c => if c == 0 then .ok acc.reverse else l0CStr b (i + 1) (c :: acc)
+termination_by b.size - i
+decreasing_by have := L0.Buf.lt_of_get? h; omega
+
+def lbufModel (args : List Bytes) : L0.M String := do
+  let (bf0, rest) ← match args with
+    | [82] :: data :: rest => do pure (← L0.LBuf.readFd data [], rest)
+    | n :: rest => pure (L0.LBuf.alloc (asNat n), rest)
+    | [] => pure (L0.LBuf.empty, [])
+  let (bf, rcs, fin) ← lbufOps bf0 [] rest
+  let rcStr := if rcs.isEmpty then "-" else String.join (rcs.reverse.map toString)
+  let head := s!"R {rcStr} {bf.getLen} {bf.getSize} {toHex bf.contents}"
+  match fin with
+  | some [84] => do                                              -- T: buffer_str
+    let (b, _) ← bf.str
+    pure (head ++ " " ++ toHex (← l0CStr b 0 []))
+  | some [76] => do                                              -- L: buffer_putc('\0'), buffer_release
+    let (_, bf') ← bf.putc 0
+    pure (head ++ " " ++ toHex (← l0CStr bf'.release.1 0 []))
+  | _ => pure head
+
+/-- What the list-level models assume of the buffer: every operation succeeds, the bytes in use are the pieces in
+order (`reset`/`pop` taken into account), the capacity is whatever; the string handed out is those bytes up to
+their first NUL.  Answers `R <rcs> <len> * <hex> [<hex>]`. -/
+def lbufSpec (args : List Bytes) : String :=
+  let (start, rest) : Bytes × List Bytes := match args with
+    | [82] :: data :: rest => (data, rest)
+    | _ :: rest => ([], rest)
+    | [] => ([], [])
+  let rec go (acc : Bytes) (n : Nat) : List Bytes → Bytes × Nat × Option Bytes
+    | op :: piece :: rest =>
+      match op with
+      | [115] => go (acc ++ piece) (n + 1) rest
+      | [99] => go (acc ++ [piece.headD 0]) (n + 1) rest
+      | [102] => go (acc ++ cstr piece) (n + 1) rest
+      | [114] => go [] (n + 1) rest
+      | [112] => go (acc.take (acc.length - asNat piece)) (n + 1) rest
+      | _ => (acc, n, none)
+    | [fin] => (acc, n, some fin)
+    | [] => (acc, n, none)
+  let (acc, n, fin) := go start 0 rest
+  let rcStr := if n == 0 then "-" else String.join ((List.replicate n 0).map toString)
+  let head := s!"R {rcStr} {acc.length} * {toHex acc}"
+  match fin with
+  | some _ => head ++ " " ++ toHex (cstr acc)
+  | none => head
+
+def faultStr : L0.Fault → String
+  | .oob i => s!"FAULT oob {i}"
+  | .uaf => "FAULT uaf"
+  | .nullDeref => "FAULT null"
+
 def l0Answer (fn : String) (args : List Bytes) : String :=
   match handleL0 fn args with
   | .ok "BADOP" => "BADOP"
@@ -749,6 +822,17 @@ def handle (side op : String) (args : List String) : String :=
   match side, op, args.mapM fromHex with
   | _, _, none => "BADHEX"
   | "l0", fn, some as => l0Answer fn as
+  | "M", "lbuf", some as => (match lbufModel as with | .ok r => r | .error e => faultStr e)
+  | "M", "dconf", some [home] =>
+    -- mdsort.c defaultconf(home): the path handed to config_parse, or exit status 1
+    (match Model.defaultconf Model.PATH_MAX home with | some p => "OK " ++ toHex p | none => "EXIT 1")
+  | "M", "renv", some [home, tmpdir] =>
+    -- mdsort.c readenv with HOME / TMPDIR as given (~ = unset; the password entry is not consulted by the harness requests)
+    let opt (b : Bytes) : Option Bytes := if b == [126] then none else some b
+    (match Model.readenv { home := opt home, pwdir := none, tmpdir := opt tmpdir, tz := none, pathTmp := "/tmp/".toUTF8.toList } with
+     | .ok (h, t, _) => s!"OK {toHex h} {toHex t}"
+     | .error _ => "EXIT 1")
+  | "S", "lbuf", some as => lbufSpec as
   | "M", "isbackref", some [s] =>
     match Model.isBackref s with
     | .inl (n, br) => s!"BR {n} {br.mi} {br.si}"
